@@ -321,6 +321,25 @@ def map_receiver(rel, name):
     return None
 
 
+def core_of(code, pos, kind):
+    """For an `index` site: the indexed expression itself, `receiver[..]` with white space removed (receiver = the
+    identifier chain before the bracket).  None for the other kinds.  An entry whose statement SHAPE changed but whose
+    core is literally the same (the expression was moved into a closure, a condition was added next to it) is
+    counted as drift - its guards are still validated - and not reported as `site changed`."""
+    if kind != "index":
+        return None
+    m = re.search(r"([A-Za-z_][A-Za-z0-9_\.]*(?:\(\))?)\s*$", code[max(0, pos - 120):pos])
+    depth = 0
+    for k in range(pos, min(len(code), pos + 400)):
+        if code[k] == "[":
+            depth += 1
+        elif code[k] == "]":
+            depth -= 1
+            if depth == 0:
+                return re.sub(r"\s+", "", (m.group(1) if m else "") + code[pos:k + 1])
+    return None
+
+
 def stmt_bounds(code, pos):
     """[a, b) of the statement around pos: from the previous `;` `{` `}` `,` to the next one (in the blanked code)."""
     a = pos
@@ -370,7 +389,7 @@ def scan_file(rel):
             norm = re.sub(r"\s+", " ", text[a:b]).strip()[:160]
             sa, sb = stmt_bounds(code, pos)
             sites.append({"file": rel, "fn": fn, "kind": kind, "text": norm, "line": ln + 1, "pos": pos,
-                          "shape": shape_of(code[sa:sb]),
+                          "shape": shape_of(code[sa:sb]), "core": core_of(code, pos, kind),
                           "fn_before": re.sub(r"\s+", " ", text[fa:pos]), "fn_before_code": code[fa:b], "fn_start": fa,
                           "at_site": code[pos:pos + 80]})
     return sites
@@ -457,6 +476,7 @@ def call_counts(method):
 _cited = {}
 _drift = []
 _relocated = []
+_rewritten = []
 DISPOSITIONS = ("discharged_by", "guarded", "outside_model", "observed_only")
 _last = {}
 
@@ -480,6 +500,7 @@ def validate(sites, pmap):
     # entry is then validated against the site like any other (guards, citations, call counts).
     pmap = dict(pmap)
     del _relocated[:]
+    del _rewritten[:]
     have = set(s["key"] for s in sites)
     orphans = sorted(k for k in pmap if k not in have)
 
@@ -501,7 +522,12 @@ def validate(sites, pmap):
         if e is None:
             problems.append("unmapped site: %s (line %d: %s)" % (s["key"], s["line"], s["text"]))
             continue
-        if e.get("shape") is not None and e["shape"] != s["shape"]:
+        if e.get("shape") is not None and e["shape"] != s["shape"] and e.get("core") and e["core"] == s.get("core") \
+                and any(k in e for k in ("guard_text", "site_is")):
+            # fourth audit, follow-up: the statement around the site was rewritten but the indexed expression is
+            # literally the same and the entry has a guard that is validated below: drift, not a changed site
+            _rewritten.append(s["key"])
+        elif e.get("shape") is not None and e["shape"] != s["shape"]:
             # the entry was written for another expression: ordinals shifted (a site was inserted or removed
             # before this one) or the statement itself was rewritten beyond names and layout
             problems.append("site changed: %s now reads `%s` (line %d), its entry was written for the shape `%s` (%s)"
@@ -658,6 +684,7 @@ def generate():
     _last.clear()
     _last.update({"sites": len(sites), "by_disposition": by, "problems": problems[:40], "problem_count": len(problems),
                   "stale_map_entries": len(stale), "stale_map_entries_listed": stale[:20], "entries_whose_line_text_drifted_shape_kept": len(_drift),
+                  "entries_whose_statement_was_rewritten_around_the_same_indexed_expression": len(_rewritten),
                   "entries_followed_to_a_renamed_or_moved_function": len(_relocated), "relocations": _relocated[:10],
                   "keying": "file::fn::kind#ordinal-in-fn; secondary hint: shape of the enclosing statement",
                   "files_scanned": len(_last_files), "time_box": time_box(), "by_kind": _count(sites, "kind"), "files": len(set(s["file"] for s in sites))})
